@@ -58,6 +58,7 @@ type Model struct {
 	rfOnStack map[*ssa.Function]bool
 	rpMemo map[string][]map[string]Lit
 	justDepth int
+	ownerMemo map[*ssa.Function]bool
 	notifyMemo map[*ssa.Function]bool
 	edgeHook func(l Lit, flag int) (int, bool)
 	descend func(f *ssa.Function) bool
@@ -417,6 +418,7 @@ func (m *Model) fieldStoredBy(method string) string {
 
 // StoreOp is a call through the KeyValue interface from library code.
 type StoreOp struct {
+	Extension string // method name if the operation goes through an extension interface of the store handle
 	Fn     *ssa.Function
 	Call   *ssa.Call
 	Method string
@@ -433,6 +435,17 @@ func (m *Model) StoreOps() []StoreOp {
 				}
 				if namedOf(c.Call.Value.Type()) == m.KVIface {
 					out = append(out, StoreOp{Fn: f, Call: c, Method: c.Call.Method.Name()})
+				} else if m.isKVExtension(c.Call.Value) {
+					// a method of an optional extension interface asserted from the store handle
+					// (e.g. DeleteRevision): classified by the KeyValue operation its name starts with
+					name := c.Call.Method.Name()
+					meth := "Ext:" + name
+					for _, base := range []string{"Create", "Update", "Get", "Delete", "Watch"} {
+						if strings.HasPrefix(name, base) {
+							meth = base
+						}
+					}
+					out = append(out, StoreOp{Fn: f, Call: c, Method: meth, Extension: name})
 				}
 			}
 		}
@@ -443,13 +456,42 @@ func (m *Model) StoreOps() []StoreOp {
 // isKVCall reports whether v is a call of the given KeyValue method.
 func (m *Model) isKVCall(v ssa.Value, method string) (*ssa.Call, bool) {
 	c, ok := v.(*ssa.Call)
-	if !ok || !c.Call.IsInvoke() || namedOf(c.Call.Value.Type()) != m.KVIface {
+	if !ok || !c.Call.IsInvoke() {
 		return nil, false
+	}
+	if namedOf(c.Call.Value.Type()) != m.KVIface {
+		// an extension interface asserted from the store handle counts as the operation whose
+		// name it starts with
+		if !m.isKVExtension(c.Call.Value) {
+			return nil, false
+		}
+		if method != "" && !strings.HasPrefix(c.Call.Method.Name(), method) {
+			return nil, false
+		}
+		return c, true
 	}
 	if method != "" && c.Call.Method.Name() != method {
 		return nil, false
 	}
 	return c, true
+}
+
+// isKVExtension: v is the store handle type-asserted to another interface (x, ok := kv.(I)).
+func (m *Model) isKVExtension(v ssa.Value) bool {
+	for i := 0; i < 4; i++ {
+		switch x := v.(type) {
+		case *ssa.Extract:
+			v = x.Tuple
+			continue
+		case *ssa.TypeAssert:
+			if _, isIface := x.AssertedType.Underlying().(*types.Interface); !isIface {
+				return false
+			}
+			return namedOf(x.X.Type()) == m.KVIface
+		}
+		break
+	}
+	return false
 }
 
 func (m *Model) buildCallers() {
